@@ -30,22 +30,26 @@ type block struct {
 }
 
 type cliCase struct {
-	Cmd       string    `json:"cmd"`
-	Ali       gen.Ali   `json:"ali"`
-	Others    []gen.Ali `json:"others"`
-	More      []gen.Ali `json:"more"`   // further alignments of the input file (then a Phylip stream)
-	Layout    int       `json:"layout"` // Phylip output: 0 blocks of 10 in lines of 60, 1 --one-line, 2 --no-block, 3 both
-	Start     int       `json:"start"`
-	Len       int       `json:"len"`
-	Step      int       `json:"step"`
-	Reverse   bool      `json:"reverse"`
-	Ref       string    `json:"ref"`
-	Sites     []int     `json:"sites"`
-	SiteFile  bool      `json:"sitefile"`
-	Split     splitCase `json:"split"`
-	Blocks    []block   `json:"blocks"`
-	Trim      int       `json:"trim"`
-	FromStart bool      `json:"from_start"`
+	Cmd       string     `json:"cmd"`
+	Ali       gen.Ali    `json:"ali"`
+	Others    []gen.Ali  `json:"others"`
+	More      []gen.Ali  `json:"more"`         // further alignments of the input file (then a Phylip stream)
+	Layout    int        `json:"layout"`       // Phylip output: 0 blocks of 10 in lines of 60, 1 --one-line, 2 --no-block, 3 both
+	Fasta     cli.Layout `json:"fasta_layout"` // presentation of the FASTA input file(s)
+	OutFile   int        `json:"out_file"`     // 0 standard output; -o <file>: 1 a new file, 2 an existing (stale) file
+	LogFile   int        `json:"log_file"`     // concat -l: 0 none, 1 a new file, 2 an existing file
+	StaleOut  bool       `json:"stale_out"`    // split / extract: the output files exist already
+	Start     int        `json:"start"`
+	Len       int        `json:"len"`
+	Step      int        `json:"step"`
+	Reverse   bool       `json:"reverse"`
+	Ref       string     `json:"ref"`
+	Sites     []int      `json:"sites"`
+	SiteFile  bool       `json:"sitefile"`
+	Split     splitCase  `json:"split"`
+	Blocks    []block    `json:"blocks"`
+	Trim      int        `json:"trim"`
+	FromStart bool       `json:"from_start"`
 }
 
 // genCLIAli: alignments whose letters the FASTA reader classifies without surprise
@@ -245,6 +249,17 @@ func genCLI(t *rapid.T, cmds []string) cliCase {
 		}
 		c.Layout = uni(t, 4, "layout")
 	}
+	// presentation of the input and destination of the output
+	if uni(t, 3, "fastalayout") == 0 {
+		c.Fasta = cli.DrawLayout(t)
+	}
+	if uni(t, 3, "outfile") == 0 {
+		c.OutFile = 1 + uni(t, 2, "stale")
+	}
+	if c.Cmd == "concat" && uni(t, 2, "log") == 0 {
+		c.LogFile = 1 + uni(t, 2, "stalelog")
+	}
+	c.StaleOut = uni(t, 3, "staleout") == 0
 	return c
 }
 
@@ -435,7 +450,10 @@ func checkCLI(dir string, c cliCase) (o pbt.Outcome, err error) {
 		}
 		in = cli.TempFile(dir, ".phy", cli.Phylip(all...))
 	} else {
-		in = cli.TempFile(dir, ".fa", cli.Fasta(rows))
+		in = cli.TempFile(dir, ".fa", cli.FastaLayout(rows, c.Fasta))
+		if !c.Fasta.Plain() {
+			o.Class("input:fasta-other-layout")
+		}
 	}
 	o.Class("cmd=%s", c.Cmd)
 	// plan: the arguments of the command and the model's prediction for one input alignment
@@ -759,7 +777,7 @@ func checkCLI(dir string, c cliCase) (o pbt.Outcome, err error) {
 				if len(c.More) > 0 {
 					args = append(args, cli.TempFile(dir, ".phy", cli.Phylip(a.Rows)))
 				} else {
-					args = append(args, cli.TempFile(dir, ".fa", cli.Fasta(a.Rows)))
+					args = append(args, cli.TempFile(dir, ".fa", cli.FastaLayout(a.Rows, c.Fasta)))
 				}
 			}
 			for _, a := range rest {
@@ -822,11 +840,54 @@ func checkCLI(dir string, c cliCase) (o pbt.Outcome, err error) {
 		}
 	}
 
+	// destination of the output: standard output, a new file, or a file that exists already (its stale
+	// content must be replaced); the output files of split / extract may exist already too
+	outPath, logPath := "", ""
+	severalFiles := c.Cmd == "subseq-step" || (multi && (strings.HasPrefix(c.Cmd, "subseq") || strings.HasPrefix(c.Cmd, "subsites")))
+	if c.OutFile > 0 && exp.Files == nil && outDir == "" && !severalFiles {
+		outPath = cli.TempFile(dir, ".out", "")
+		os.Remove(outPath)
+		if c.OutFile == 2 {
+			cli.StaleFile(outPath, 40)
+			o.Class("output:-o existing file")
+		} else {
+			o.Class("output:-o new file")
+		}
+		args = append(args, "-o", outPath)
+		defer os.Remove(outPath)
+	}
+	if c.Cmd == "concat" && c.LogFile > 0 {
+		logPath = cli.TempFile(dir, ".log", "")
+		os.Remove(logPath)
+		if c.LogFile == 2 {
+			cli.StaleFile(logPath, 40)
+		}
+		args = append(args, "-l", logPath)
+		o.Class("output:concat log file")
+		defer os.Remove(logPath)
+	}
+	if c.StaleOut && exp.Files != nil {
+		for name := range exp.Files {
+			cli.StaleFile(filepath.Join(outDir, name), 40)
+		}
+		o.Class("output:existing split/extract files")
+	}
 	r := cli.Run("", args...)
 	if outDir != "" {
 		defer os.RemoveAll(outDir)
 	}
 	defer os.Remove(in)
+	stdout := r.Stdout
+	if outPath != "" && r.Exit == 0 {
+		b, e := os.ReadFile(outPath)
+		if e != nil {
+			return o, fmt.Errorf("goalign %s: the output file was not written: %v", strings.Join(args, " "), e)
+		}
+		if strings.TrimSpace(r.Stdout) != "" {
+			return o, fmt.Errorf("goalign %s: output requested in a file, but standard output holds\n%s", strings.Join(args, " "), firstLines(r.Stdout, 6))
+		}
+		stdout = string(b)
+	}
 	show := func() string {
 		d := gen.Show(rows)
 		for _, a := range c.More {
@@ -899,15 +960,15 @@ func checkCLI(dir string, c cliCase) (o pbt.Outcome, err error) {
 	var got []gen.Row
 	same := gen.SameRows
 	if multi {
-		stream, e := cli.ParsePhylipStream(r.Stdout)
+		stream, e := cli.ParsePhylipStream(stdout)
 		if e != nil {
-			return o, fmt.Errorf("%s: unreadable Phylip output: %v\n%s", show(), e, firstLines(r.Stdout, 12))
+			return o, fmt.Errorf("%s: unreadable Phylip output: %v\n%s", show(), e, firstLines(stdout, 12))
 		}
 		for _, al := range stream {
 			got = append(got, al...)
 		}
 		same = samePhylipRows
-	} else if got, err = cli.ParseFasta(r.Stdout); err != nil {
+	} else if got, err = cli.ParseFasta(stdout); err != nil {
 		return o, fmt.Errorf("%s: unreadable output: %v", show(), err)
 	}
 	// every input alignment contributes, in order, one of its accepted outputs
@@ -930,6 +991,33 @@ func checkCLI(dir string, c cliCase) (o pbt.Outcome, err error) {
 				rest = rest[:len(e.Outs[0])]
 			}
 			return o, fmt.Errorf("%s: output for input alignment %d (%s)\n got : %s\n want: %s", show(), k, gen.Show(inputs[k]), gen.Show(rest), gen.Show(e.Outs[0]))
+		}
+	}
+	if logPath != "" {
+		// start (0-based inclusive), end (exclusive) and file of every input alignment, in order
+		b, e := os.ReadFile(logPath)
+		if e != nil {
+			return o, fmt.Errorf("%s: the log file was not written: %v", show(), e)
+		}
+		var want []string
+		at := 0
+		files := []string{}
+		for _, a := range args {
+			if strings.HasSuffix(a, ".fa") || strings.HasSuffix(a, ".phy") {
+				files = append(files, a)
+			}
+		}
+		add := func(l int, f string) { want = append(want, fmt.Sprintf("%d\t%d\t%s", at, at+l, f)); at += l }
+		add(aliLen(c.Ali), files[0])
+		for _, a := range c.More {
+			add(aliLen(a), files[0])
+		}
+		for k, a := range c.Others {
+			add(aliLen(a), files[1+k])
+		}
+		gotLog := strings.Split(strings.TrimRight(string(b), "\n"), "\n")
+		if strings.Join(gotLog, "|") != strings.Join(want, "|") {
+			return o, fmt.Errorf("%s: log file holds %q want %q", show(), gotLog, want)
 		}
 	}
 	if pos != len(got) {
